@@ -28,6 +28,9 @@ ASSUMPTIONS = [
     "ABT_POOL_ACCESS_PRIV (the lock-free callbacks): the access contract 'calls do not overlap' is a precondition of the model's call event; "
     "SPSC/MPSC/SPMC are exercised with exactly the number of pushing / popping threads they permit, MPMC with up to 4 + 4",
     "remove is called on units that are in this pool or in no pool (the is_in_pool flag is per unit, not per queue: same contract as sequentially)",
+    "API level: ABT_pool_push_threads(_ex) is modelled as handle conversion + exactly one p_push_many callback invocation with the whole "
+    "batch (hook 23 in T3, skeleton of pool_push_threads_ex in T1); batches of 65-130 units (beyond the wrapper's 64-entry buffer) are "
+    "exercised in a few runs of the quick tier and in a larger share of thorough / search runs",
     "T3 projection (vlib/t3_pool.py) is trusted: which logged atomic / hook event is which model event; a failing guard of "
     "thread_queue_remove under the lock has no hook point and is inferred from the lock release",
 ]
@@ -788,7 +791,19 @@ def implicated(broken, gen_info):
     return sorted(hot - sharp) + sorted(sharp) * 6
 
 
-def conc_params(rng, hot=None, search=False):
+def wrapper_implicated(broken):
+    """a broken skeleton of the API-level wrappers in pool.c (handle conversion, one callback per call): the search then
+    spends more of its runs on batches larger than the wrappers' fixed-size buffers"""
+    return any(b.get("kind") == "T1-skeleton" and b.get("file") == "pool/pool.c" for b in broken)
+
+
+def conc_params(rng, hot=None, search=False, big_pct=5):
+    if rng.below(100) < big_pct:
+        # one push_many call with 65-130 units (more than the 64-entry buffer of the wrapper), pop_many that can empty the pool
+        kind, acc = rng.choice(hot) if (hot and rng.chance(1, 2)) else (rng.below(3), rng.choice([0, 0, 1, 2, 3, 3]))
+        if acc == 4:
+            acc = 0
+        return [kind, acc, 1 + rng.below(2), 1 + rng.below(2), 140, 2 + rng.below(2), rng.choice([100, 100, 60]), 1]
     if hot and rng.below(100) < 75:
         kind, acc = rng.choice(hot)
     else:
@@ -801,7 +816,7 @@ def conc_params(rng, hot=None, search=False):
         # few units, many rounds: the pool oscillates around empty, where the lock-free paths and the lock interact
         nunits, rounds = 2 + rng.below(3), 8 + rng.below(8)
     ext = rng.choice([100, 100, 60, 30, 0])
-    return [kind, acc, nprod, ncons, nunits, rounds, ext]
+    return [kind, acc, nprod, ncons, nunits, rounds, ext, 0]
 
 
 def run_poolconc(lines, timeout=120):
@@ -871,10 +886,12 @@ def t3_conc(res, tier, broken):
     transitions = set()
     nruns = [0]
 
+    big_pct = {"quick": 5, "thorough": 12}[tier]
+
     def jobs(nprog, nsched, hot, search):
         out = []
         for p in range(nprog):
-            params = conc_params(rng, hot, search)
+            params = conc_params(rng, hot, search, (60 if wrapper_implicated(broken) else 25) if search else big_pct)
             pseed = 1 + rng.below(10**6)
             for k in range(nsched):
                 out.append((len(out), params, pseed * 1000 + k, vs.MODES[(p + k) % len(vs.MODES)]))
@@ -918,7 +935,10 @@ def t3_conc(res, tier, broken):
                 for k, v in info.get("ops", {}).items():
                     ops[k] += v
                     ops_cfg["%s/%s" % (rep["kind"], rep["access"])][k] += v
-                for k in ("calls_started_while_another_in_progress", "preempted_after_precheck", "tas_failed", "empty_seen_lock_free"):
+                if r["params"][7]:
+                    cov["runs_with_large_batches"] += 1
+                for k in ("calls_started_while_another_in_progress", "preempted_after_precheck", "tas_failed", "empty_seen_lock_free",
+                          "push_many_callbacks"):
                     cov[k] += info.get(k, 0)
                 if info.get("calls_started_while_another_in_progress", 0) > 0:
                     cov["traces_with_overlapping_calls"] += 1
